@@ -159,10 +159,17 @@ def tokenizer(ctx, cfg, fs):
            'the separator item is marked Parsed and remaining is decremented by one, only when a separator was recorded: %s' % (guard and bool(dec)), where=b.where(parsed[0]), cfg=cfg)
 
 def strictness(ctx, cfg, fs):
-    b = ctx.look(fs.one(r'^params::parse_pos_word$'))
+    b = ctx.look(fs.host(r'^params::parse_pos_word$', r'State>::take_positional_word$'))
     params = {b.name_of(i): i for i in range(1, b.arg_count + 1)}
     tk = [c for c in b.calls() if c.is_(r'take_positional_word$')]
-    if len(tk) != 1 or 'position' not in params:
+    # the restriction is the `position` parameter, or - when the helper became a method - the `position` field of self
+    if 'position' in params:
+        pos_key = (params['position'], ())
+    elif 'self' in params and 'ParsePositional' in (b.local_ty(params['self']) or ''):
+        pos_key = (params['self'], ('position',))
+    else:
+        pos_key = None
+    if len(tk) != 1 or pos_key is None:
         raise Broken('parse_pos_word: anchors not found')
     want = {('Unrestricted', False): 'Ok', ('Unrestricted', True): 'Ok', ('Strict', False): 'Err(StrictPos)', ('Strict', True): 'Ok',
             ('NonStrict', False): 'Ok', ('NonStrict', True): 'Err(NonStrictPos)'}
@@ -172,7 +179,7 @@ def strictness(ctx, cfg, fs):
                 rs = provenance(b, sw.place, sw.discr_site[0], sw.discr_site[1], through=None)
                 if any(r.kind == 'call' and r.call.bb == tk[0].bb and not r.path for r in rs):
                     return 'Ok'
-                if any(r.kind == 'param' and r.what == 'position' for r in rs):
+                if any(r.kind == 'param' and (r.what == 'position' or (r.what == 'self' and r.path[:1] == ['position'])) for r in rs):
                     return pos
             if sw.kind == 'bool':
                 for r in sw.roots:
@@ -185,7 +192,7 @@ def strictness(ctx, cfg, fs):
                     if r.kind == 'call' and r.call.is_(r'touching_last_remove$', r'check_no_pos_ahead$'):
                         return False
             return None
-        w = Walker(b, atom=atom, call_model=lambda w, c, st: ('callres', c.name, c.bb), variant_of={(params['position'], ()): pos})
+        w = Walker(b, atom=atom, call_model=lambda w, c, st: ('callres', c.name, c.bb), variant_of={pos_key: pos})
         paths = [p for p in w.run() if p.end == 'return']
         outs = set()
         for p in paths:
